@@ -176,11 +176,71 @@ pub enum RngKind {
     Empty,
 }
 
+/// The ambient context the runtime is built with (`ctxts.rs`).
+#[derive(Serialize, Deserialize, Debug, Clone, Copy, PartialEq, Eq, Default)]
+pub enum CtxtKind {
+    /// `ThreadLocalCtxt::new()`: a map, unique keys, keyed lookup, typed fast path for ids
+    #[default]
+    ThreadLocal,
+    /// the minimal user context: required methods only, frames are flat lists of pairs, the provided
+    /// `open_push` / `open_disabled`; `Current` lists innermost first WITH duplicates (`dedup`: `open_root`
+    /// keeps the first pair per key instead)
+    Stack { dedup: bool },
+    /// `Arc<dyn ErasedCtxt + Send + Sync>` over the given context
+    Erased(Inner),
+}
+
+#[derive(Serialize, Deserialize, Debug, Clone, Copy, PartialEq, Eq)]
+pub enum Inner {
+    ThreadLocal,
+    /// `Some(ThreadLocalCtxt)`
+    SomeThreadLocal,
+    Stack,
+    StackDedup,
+    /// persistent stack of frames with its own `open_push`, duplicates innermost first
+    Chain,
+    /// `Some(StackCtxt)`
+    SomeStack,
+    /// `Arc<StackCtxt>`
+    ArcStack,
+    /// `Box<ChainCtxt>`
+    BoxChain,
+}
+
+impl CtxtKind {
+    /// `Current` can list a key more than once (innermost first; valid: `Props` is first-wins)
+    pub fn duplicates(self) -> bool {
+        match self {
+            CtxtKind::ThreadLocal | CtxtKind::Stack { dedup: true } => false,
+            CtxtKind::Stack { dedup: false } => true,
+            CtxtKind::Erased(i) => matches!(i, Inner::Stack | Inner::Chain | Inner::SomeStack | Inner::ArcStack | Inner::BoxChain),
+        }
+    }
+    pub fn label(self) -> &'static str {
+        match self {
+            CtxtKind::ThreadLocal => "ctxt:thread-local",
+            CtxtKind::Stack { dedup: false } => "ctxt:plain-stack/provided-open-push/duplicates",
+            CtxtKind::Stack { dedup: true } => "ctxt:plain-stack/provided-open-push/dedup-in-open-root",
+            CtxtKind::Erased(Inner::ThreadLocal) => "ctxt:erased/thread-local",
+            CtxtKind::Erased(Inner::SomeThreadLocal) => "ctxt:erased/some-thread-local",
+            CtxtKind::Erased(Inner::Stack) => "ctxt:erased/plain-stack-duplicates",
+            CtxtKind::Erased(Inner::StackDedup) => "ctxt:erased/plain-stack-dedup",
+            CtxtKind::Erased(Inner::Chain) => "ctxt:erased/frame-chain-duplicates",
+            CtxtKind::Erased(Inner::SomeStack) => "ctxt:erased/some-plain-stack-duplicates",
+            CtxtKind::Erased(Inner::ArcStack) => "ctxt:erased/arc-plain-stack-duplicates",
+            CtxtKind::Erased(Inner::BoxChain) => "ctxt:erased/box-frame-chain-duplicates",
+        }
+    }
+}
+
 #[derive(Serialize, Deserialize, Debug, Clone)]
 pub struct Case {
     pub rng: RngKind,
     pub incoming: Option<Incoming>,
     pub items: Vec<Item>,
+    /// (absent in replay files written before the context became a dimension: the real one)
+    #[serde(default)]
+    pub ctxt: CtxtKind,
 }
 
 // ---------------------------------------------------------------------------------------------
@@ -233,6 +293,10 @@ pub struct SpanInfo {
     /// the scope the span is started in (its nearest enabled ancestor)
     pub outer: Scope,
     pub depth: usize,
+    /// for an enabled span: how many enabled spans' ids are stacked in the ambient context inside it (itself
+    /// included) — the chain of nearest enabled ancestors as the ambient context sees it, which also runs
+    /// through carried / captured frames; 0 for a rejected span
+    pub chain: usize,
     pub form: Form,
     /// the span is left by a planned panic (whether it then completes is C05's business: 0 or 1 events)
     pub unwinds: bool,
@@ -241,6 +305,13 @@ pub struct SpanInfo {
 #[derive(Debug, Default)]
 pub struct Stats {
     pub max_depth: usize,
+    /// longest chain of enabled spans stacked in the ambient context
+    pub max_chain: usize,
+    /// an `emit!` event directly inside an enabled span whose chain is >= 3
+    pub event_at_chain3: bool,
+    /// an enabled span with chain >= 3 ends normally and the check right after it (back in its parent,
+    /// chain >= 2) is taken: "when a span ends the ambient ids revert to its parent's" below the top levels
+    pub revert_after_chain3: bool,
     pub disabled_with_enabled_descendant: bool,
     pub joins: usize,
     pub join_tasks_max: usize,
@@ -459,6 +530,9 @@ impl Numberer {
                 if self.after_panic && w.scope.span.is_some() {
                     self.stats.after_panic_event_in_enclosing_span = true;
                 }
+                if w.scope.span.is_some_and(|a| self.spans[a].chain >= 3) {
+                    self.stats.event_at_chain3 = true;
+                }
                 self.events.push(w.scope);
                 self.stats.events += 1;
                 if w.in_disabled {
@@ -472,7 +546,9 @@ impl Numberer {
                 let id = self.spans.len();
                 let depth = w.depth + 1;
                 self.stats.max_depth = self.stats.max_depth.max(depth);
-                self.spans.push(SpanInfo { enabled: n.enabled, outer: w.scope, depth, form: n.form, unwinds: false });
+                let chain = if n.enabled { 1 + w.scope.span.map_or(0, |a| self.spans[a].chain) } else { 0 };
+                self.stats.max_chain = self.stats.max_chain.max(chain);
+                self.spans.push(SpanInfo { enabled: n.enabled, outer: w.scope, depth, chain, form: n.form, unwinds: false });
                 if self.after_panic {
                     if w.scope.span.is_some() {
                         self.stats.after_panic_sibling_span = true;
@@ -557,6 +633,9 @@ impl Numberer {
                     self.after_panic = v;
                 }
                 let post = if self.unwinding { None } else { Some(self.check(w.scope)) };
+                if post.is_some() && chain >= 3 {
+                    self.stats.revert_after_chain3 = true;
+                }
                 PItem::Span(PNode { id, form: n.form, enabled: n.enabled, mdl, items, pre, post, far_end, after })
             }
             Item::Hop { carry, fut, items, after } => {
